@@ -19,6 +19,8 @@
 (*   P      productions, P[p+1] = [lhs, rhs]                                *)
 (*   akind  rule name -> "none" | "single" | "list" | "obj" | "collect" |   *)
 (*          "collect_sep" | "optional" | "zero" | "k0" | "kF" | "kS" | "kL" *)
+(*          | "pass_none" | "pass_nochange" | "pass_empty" | "pass_single"  *)
+(*          | "pass_inner"                                                  *)
 (*          (constant actions; also allowed for TERMINAL names)             *)
 (*   assign p+1 -> sequence of [name, op, idx] sorted by name (idx 1-based) *)
 (*   tact   set of terminals that have a (recording) action                 *)
@@ -44,6 +46,12 @@ Eval(P, akind, assign, tact, n) ==
            alt == AltOf(P, n.p)
            kind == akind[X]
        IN CASE kind \in ConstKinds -> Const(kind)
+            \* built-in actions named in the grammar (docs/actions.md)
+            [] kind = "pass_none"     -> <<"n">>
+            [] kind = "pass_nochange" -> <<"l", sub>>
+            [] kind = "pass_empty"    -> <<"l", <<>>>>
+            [] kind = "pass_single"   -> sub[1]
+            [] kind = "pass_inner"    -> IF Len(sub) = 3 THEN sub[2] ELSE <<"l", IF Len(sub) <= 2 THEN <<>> ELSE SubSeq(sub, 2, Len(sub) - 1)>>
             [] kind = "none"    -> IF Len(sub) = 1 THEN sub[1] ELSE <<"l", sub>>
             [] kind = "single"  -> <<"c", X, 0 - 1, <<"l", sub>>, KW(assign, n.p, sub), SpanS(n), SpanE(n)>>
             [] kind = "list"    -> <<"c", X, alt, <<"l", sub>>, KW(assign, n.p, sub), SpanS(n), SpanE(n)>>
